@@ -7,7 +7,7 @@ from sa.emit import Elem, walk_elems
 from sa.flow import show, sig, subterms
 from sa.model import AnalysisError, norm, parent, walk_no_nested
 
-from .common import callers_of, commands, is_call, prov, unshipped_modules
+from .common import include_rules, callers_of, commands, is_call, prov, unshipped_modules
 from .xmlcommon import documents
 
 
@@ -226,6 +226,7 @@ def run(report, p):
             bad = [v for v in vals if not (type(v) is int and v == want)]
             r7.check(not bad, rd, st, f"the reader turns the recorded size {text!r} into {bad[0] if bad else None!r}: `{norm(st.value)[:70]}`", construct=f"size attribute {text!r} read back as {bad[0] if bad else None!r}")
 
+    include_rules(report, p, 'c18', ['R18.2'], 'a flattened manifest states, for every digest, the instant at which that digest was computed: the hash date is carried over from the source entry')
     report.not_decided += ["correctness of the tz database", "that the instant written equals the file's mtime at run time (only its provenance)", "sizes of files that change during hashing"]
 
 
